@@ -140,6 +140,22 @@ Definition alpha (T : list (str * Z)) (a : satom) : option Z :=
               if v <? 0 then None else Some v
   end.
 
+(* is the symbol a symbol of the grammar under table T? *)
+Definition symbol_in_grammar (T : list (str * Z)) (sym : str) : bool :=
+  match assoc sym branch_symbols with
+  | Some _ => true
+  | None =>
+    match assoc sym ring_symbols with
+    | Some _ => true
+    | None =>
+      str_eqb sym epsilon_symbol || str_eqb sym nop_symbol ||
+      match parse_atom_symbol sym with
+      | Some (_, _, a) => match alpha T a with Some _ => true | None => false end
+      | None => false
+      end
+    end
+  end.
+
 (* ---------- derivation ---------- *)
 Record ringq := { q_l : nat; q_r : nat; q_order : Z; q_lm : option N; q_rm : option N }.
 
